@@ -46,7 +46,11 @@ func runC29(c *core.Ctx) {
 	}
 	// Snapshot: constants stored into the slice literal that the read loop ranges over
 	snapKeys := map[string]bool{}
-	for _, b := range snap.Blocks {
+	var snapBlocks []*ssa.BasicBlock
+	for _, g := range append([]*ssa.Function{snap}, c.Helpers(snap)...) {
+		snapBlocks = append(snapBlocks, g.Blocks...)
+	}
+	for _, b := range snapBlocks {
 		for _, in := range b.Instrs {
 			st, ok := in.(*ssa.Store)
 			if !ok {
@@ -155,11 +159,26 @@ func runC29(c *core.Ctx) {
 	} else {
 		readAfter := false
 		for _, a := range f.Accesses {
-			if a.Fn != snap || a.Write {
+			if a.Write {
+				continue
+			}
+			// a read done by a helper of Snapshot happens where the helper is called
+			at := a.Site
+			if a.Fn != snap {
+				at = nil
+				if c.GroupRoot(a.Fn) == snap {
+					for _, hs := range core.Sites(snap) {
+						if hs.Common.StaticCallee() == a.Fn {
+							at = hs
+						}
+					}
+				}
+			}
+			if at == nil {
 				continue
 			}
 			for _, d := range dones {
-				if core.ReachFrom(d.Block(), nil)[a.Site.Block()] && !(d.Block() == a.Site.Block() && core.InstrIndex(a.Site.Instr) < core.InstrIndex(d.Instr) && !selfLoop(d.Block())) {
+				if core.ReachFrom(d.Block(), nil)[at.Block()] && !(d.Block() == at.Block() && core.InstrIndex(at.Instr) < core.InstrIndex(d.Instr) && !selfLoop(d.Block())) {
 					readAfter = true
 				}
 			}
@@ -384,6 +403,22 @@ func loaderStores(c *core.Ctx, f *appDBFacts, d string) map[*ssa.Function]ssa.In
 		if len(gets) == 0 {
 			continue
 		}
+		// the read and the fill are both done by a helper that is handed the key and the cell:
+		// loadUint64(&appDB.startHeight, startHeightPath) — the fill is the helper's store
+		// through that parameter
+		for _, g := range gets {
+			h := g.Site.Common.StaticCallee()
+			if g.Site.Common.IsInvoke() || h == nil {
+				continue
+			}
+			for j, a := range g.Site.Common.Args {
+				if fa, ok := core.Unwrap(a).(*ssa.FieldAddr); ok && fieldNameOf(fa) == d && isAppDBPtr(fa.X.Type()) && j < len(h.Params) {
+					if in := f.fillThroughParam(h, h.Params[j], 0); in != nil {
+						out[fn] = in
+					}
+				}
+			}
+		}
 		for _, b := range fn.Blocks {
 			for _, in := range b.Instrs {
 				var addr, val ssa.Value
@@ -426,6 +461,48 @@ func loaderStores(c *core.Ctx, f *appDBFacts, d string) map[*ssa.Function]ssa.In
 	return out
 }
 
+// fillThroughParam: the instruction of helper h (or of a helper it hands the cell on to) that
+// stores what a store read returned through the pointer parameter p.
+func (f *appDBFacts) fillThroughParam(h *ssa.Function, p *ssa.Parameter, depth int) ssa.Instruction {
+	if h.Blocks == nil || depth > 2 {
+		return nil
+	}
+	for _, b := range h.Blocks {
+		for _, in := range b.Instrs {
+			var addr, val ssa.Value
+			switch x := in.(type) {
+			case *ssa.Store:
+				addr, val = x.Addr, x.Val
+			case *ssa.Call:
+				n := core.CalleeName(&x.Call)
+				switch {
+				case strings.HasPrefix(n, "sync/atomic.Store") && len(x.Call.Args) == 2:
+					addr, val = x.Call.Args[0], x.Call.Args[1]
+				case len(x.Call.Args) >= 2 && (strings.HasSuffix(n, ".Unmarshal") || strings.HasSuffix(n, ".DecodeBytes")):
+					addr, val = x.Call.Args[1], x.Call.Args[0]
+				default:
+					if g := x.Call.StaticCallee(); g != nil && core.PkgOf(g) == pkgAppDB {
+						for j, a := range x.Call.Args {
+							if core.Unwrap(a) == ssa.Value(p) && j < len(g.Params) {
+								if r := f.fillThroughParam(g, g.Params[j], depth+1); r != nil {
+									return r
+								}
+							}
+						}
+					}
+				}
+			}
+			if addr == nil || core.Unwrap(addr) != ssa.Value(p) {
+				continue
+			}
+			if core.DependsOn(val, func(v ssa.Value) bool { return f.getLike(v, 0) }) {
+				return in
+			}
+		}
+	}
+	return nil
+}
+
 // saversOrMutators: g assigns the field (a setter / loader-only helper), so it is not a getter.
 func saversOrMutators(g *ssa.Function, af *appField) bool {
 	_, isMut := af.Mutators[g]
@@ -453,6 +530,31 @@ func checkLeafValues(c *core.Ctx, rule string) {
 		c.Unk(rule, "AppDB.Restore", token.NoPos, "Restore not found")
 		return
 	}
+	// the node is built by a helper and returned as result #index of the call
+	builtBy := func(call *ssa.Call, index int, key string, s *core.Site) {
+		if call == nil || call.Call.StaticCallee() == nil || call.Call.StaticCallee().Blocks == nil {
+			c.Unk(rule, key, s.Pos(), "the node handed to the importer is built by code the rule cannot follow")
+			return
+		}
+		h := call.Call.StaticCallee()
+		bad, found := "", false
+		for _, r := range core.Returns(h) {
+			if index >= len(r.Results) {
+				continue
+			}
+			if al, ok := core.Unwrap(r.Results[index]).(*ssa.Alloc); ok {
+				found = true
+				if b := leafPaths(al, r, r.Block(), true); b != "" && bad == "" {
+					bad = b
+				}
+			}
+		}
+		if !found {
+			c.Unk(rule, key, s.Pos(), "the helper "+h.Name()+" does not build the node in a recognised way")
+			return
+		}
+		c.Check(bad == "", rule, key, s.Pos(), "every node built by "+h.Name()+" has a non-nil key and, unless it is an inner node, a non-nil value", "a node built by "+h.Name()+" can reach Importer.Add "+bad+": iavl rejects it and the restore of a snapshot that contains an empty-valued leaf aborts half way (height and hash already written)")
+	}
 	n := 0
 	for _, s := range core.Sites(restore) {
 		if !s.Common.IsInvoke() && s.Common.StaticCallee() == nil {
@@ -472,29 +574,10 @@ func checkLeafValues(c *core.Ctx, rule string) {
 			bad := leafPaths(x, s.Instr, s.Block(), false)
 			c.Check(bad == "", rule, key, s.Pos(), "every node handed to the importer has a non-nil key and, unless it is an inner node, a non-nil value", "a node can reach Importer.Add "+bad+": iavl rejects it and the restore of a snapshot that contains an empty-valued leaf aborts half way (height and hash already written)")
 		case *ssa.Extract:
-			call, ok := x.Tuple.(*ssa.Call)
-			if !ok || call.Call.StaticCallee() == nil || call.Call.StaticCallee().Blocks == nil {
-				c.Unk(rule, key, s.Pos(), "the node handed to the importer is built by code the rule cannot follow")
-				continue
-			}
-			h := call.Call.StaticCallee()
-			bad, found := "", false
-			for _, r := range core.Returns(h) {
-				if x.Index >= len(r.Results) {
-					continue
-				}
-				if al, ok := core.Unwrap(r.Results[x.Index]).(*ssa.Alloc); ok {
-					found = true
-					if b := leafPaths(al, r, r.Block(), true); b != "" && bad == "" {
-						bad = b
-					}
-				}
-			}
-			if !found {
-				c.Unk(rule, key, s.Pos(), "the helper "+h.Name()+" does not build the node in a recognised way")
-				continue
-			}
-			c.Check(bad == "", rule, key, s.Pos(), "every node built by "+h.Name()+" has a non-nil key and, unless it is an inner node, a non-nil value", "a node built by "+h.Name()+" can reach Importer.Add "+bad+": iavl rejects it and the restore of a snapshot that contains an empty-valued leaf aborts half way (height and hash already written)")
+			call, _ := x.Tuple.(*ssa.Call)
+			builtBy(call, x.Index, key, s)
+		case *ssa.Call:
+			builtBy(x, 0, key, s)
 		default:
 			c.Unk(rule, key, s.Pos(), "the node handed to the importer is not a freshly built ExportNode")
 		}
